@@ -36,9 +36,19 @@ def main():
             alarms += len(alarm)
             print('%-40s %s%s' % (name, 'FALSE ALARM: ' + ' '.join(alarm) if alarm else 'no alarm', ('   cannot decide: ' + ' '.join(undecided)) if undecided else ''))
             sys.stdout.flush()
+    path = os.path.join(VERIF, 'benign', 'BENIGN_MATRIX.json')
     if not a.only and a.checks == sm.ALL:
-        with open(os.path.join(VERIF, 'benign', 'BENIGN_MATRIX.json'), 'w') as f:
+        with open(path, 'w') as f:
             json.dump(out, f, indent=1, sort_keys=True)
+            f.write('\n')
+    elif os.path.exists(path):
+        # a partial run (some checks / some patches) refreshes exactly the cells it computed
+        old = json.load(open(path))
+        for name, res in out.items():
+            if 'error' not in res:
+                old.setdefault(name, {}).update(res)
+        with open(path, 'w') as f:
+            json.dump(old, f, indent=1, sort_keys=True)
             f.write('\n')
     print('%d patches, %d false alarms' % (len(out), alarms))
     sys.exit(1 if alarms else 0)
